@@ -861,13 +861,218 @@ func refUnescape(s string) (string, bool) {
 	return b.String(), true
 }
 
+// ---------- several parameters through one encoder / one decoder ----------
+
+// sequences: the generated client encodes all parameters of a location with ONE encoder object (one
+// QueryEncoder per request, one HeaderEncoder, one CookieEncoder) and the server decodes them with one
+// decoder.  Every ordered pair (thorough: triple) of (cell, core value) at one location goes through
+// one encoder and one decoder; each parameter must come back as it does when it is the only one.
+func sequences(r *vf.Run, cells []cell, thorough bool) {
+	type pv struct {
+		c cell
+		v value
+	}
+	valuesFor := func(c cell, pos int) []value {
+		sfx := fmt.Sprint(pos)
+		switch c.Shape {
+		case "prim":
+			return []value{{Prim: "x" + sfx}, {Prim: "yy" + sfx}}
+		case "array":
+			return []value{{Items: []string{"a" + sfx}}, {Items: []string{"b" + sfx, "c" + sfx}}, {Items: []string{"d" + sfx, "e" + sfx, "f" + sfx}}}
+		default:
+			return []value{{Fields: []uri.Field{{Name: "k" + sfx, Value: "1"}}}, {Fields: []uri.Field{{Name: "k" + sfx, Value: "1"}, {Name: "m" + sfx, Value: "2"}}}}
+		}
+	}
+	var evals int64
+	for _, loc := range []string{"query", "header", "cookie"} {
+		var lc []cell
+		for _, c := range cells {
+			if c.Loc == loc {
+				lc = append(lc, c)
+			}
+		}
+		run := func(seq []pv) {
+			evals++
+			names := make([]string, len(seq))
+			for i := range seq {
+				names[i] = fmt.Sprintf("p%d", i+1)
+			}
+			got := make([]value, len(seq))
+			errs := make([]string, len(seq))
+			var pan any
+			func() {
+				defer func() {
+					if rec := recover(); rec != nil {
+						pan = rec
+					}
+				}()
+				fieldsOf := func(i int) (fs []uri.QueryParameterObjectField) {
+					if seq[i].c.Shape == "object" {
+						for _, f := range []string{"k", "m"} {
+							fs = append(fs, uri.QueryParameterObjectField{Name: f + fmt.Sprint(i+1)})
+						}
+					}
+					return fs
+				}
+				switch loc {
+				case "query":
+					q := uri.NewQueryEncoder()
+					for i, x := range seq {
+						x := x
+						if err := q.EncodeParam(uri.QueryParameterEncodingConfig{Name: names[i], Style: uri.QueryStyle(x.c.Style), Explode: x.c.Explode}, func(e uri.Encoder) error { return encodeInto(e, x.c, x.v) }); err != nil {
+							errs[i] = "encode: " + err.Error()
+						}
+					}
+					vals, err := url.ParseQuery(q.Values().Encode())
+					if err != nil {
+						errs[0] += " parse: " + err.Error()
+						return
+					}
+					d := uri.NewQueryDecoder(vals)
+					for i, x := range seq {
+						i, x := i, x
+						cfg := uri.QueryParameterDecodingConfig{Name: names[i], Style: uri.QueryStyle(x.c.Style), Explode: x.c.Explode, Fields: fieldsOf(i)}
+						if err := d.HasParam(cfg); err != nil {
+							errs[i] += " absent: " + err.Error()
+							continue
+						}
+						if err := d.DecodeParam(cfg, func(d uri.Decoder) error {
+							var err error
+							got[i], err = decodeFrom(d, x.c)
+							return err
+						}); err != nil {
+							errs[i] += " decode: " + err.Error()
+						}
+					}
+				case "header":
+					h := http.Header{}
+					e := uri.NewHeaderEncoder(h)
+					for i, x := range seq {
+						x := x
+						if err := e.EncodeParam(uri.HeaderParameterEncodingConfig{Name: names[i], Explode: x.c.Explode}, func(e uri.Encoder) error { return encodeInto(e, x.c, x.v) }); err != nil {
+							errs[i] = "encode: " + err.Error()
+						}
+					}
+					d := uri.NewHeaderDecoder(h)
+					for i, x := range seq {
+						i, x := i, x
+						cfg := uri.HeaderParameterDecodingConfig{Name: names[i], Explode: x.c.Explode}
+						if err := d.HasParam(cfg); err != nil {
+							errs[i] += " absent: " + err.Error()
+							continue
+						}
+						if err := d.DecodeParam(cfg, func(d uri.Decoder) error {
+							var err error
+							got[i], err = decodeFrom(d, x.c)
+							return err
+						}); err != nil {
+							errs[i] += " decode: " + err.Error()
+						}
+					}
+				case "cookie":
+					req, _ := http.NewRequestWithContext(context.Background(), "GET", "http://x/", nil)
+					e := uri.NewCookieEncoder(req)
+					for i, x := range seq {
+						x := x
+						if err := e.EncodeParam(uri.CookieParameterEncodingConfig{Name: names[i], Explode: x.c.Explode}, func(e uri.Encoder) error { return encodeInto(e, x.c, x.v) }); err != nil {
+							errs[i] = "encode: " + err.Error()
+						}
+					}
+					req2, _ := http.NewRequestWithContext(context.Background(), "GET", "http://x/", nil)
+					for _, line := range req.Header.Values("Cookie") {
+						req2.Header.Add("Cookie", line)
+					}
+					d := uri.NewCookieDecoder(req2)
+					for i, x := range seq {
+						i, x := i, x
+						cfg := uri.CookieParameterDecodingConfig{Name: names[i], Explode: x.c.Explode}
+						if err := d.HasParam(cfg); err != nil {
+							errs[i] += " absent: " + err.Error()
+							continue
+						}
+						if err := d.DecodeParam(cfg, func(d uri.Decoder) error {
+							var err error
+							got[i], err = decodeFrom(d, x.c)
+							return err
+						}); err != nil {
+							errs[i] += " decode: " + err.Error()
+						}
+					}
+				}
+			}()
+			for i, x := range seq {
+				ok := pan == nil && errs[i] == "" && reflect.DeepEqual(normalize(got[i]), normalize(x.v))
+				if ok {
+					continue
+				}
+				var desc []string
+				for j, y := range seq {
+					desc = append(desc, fmt.Sprintf("%s=%s %+v", names[j], y.c, y.v))
+				}
+				cl := "parameter-changed-next-to-another-one"
+				if pan != nil {
+					cl = "panic-with-several-parameters"
+				} else if errs[i] != "" {
+					cl = "parameter-lost-next-to-another-one"
+				}
+				r.Violation(map[string]string{"class": cl + "/" + loc, "in": loc, "cell": x.c.String(), "position": fmt.Sprint(i + 1), "of": fmt.Sprint(len(seq))}, len(fmt.Sprint(desc)),
+					map[string]any{"parameters_in_order": desc, "parameter": names[i], "sent": x.v, "received": got[i], "error": errs[i], "panic": fmt.Sprint(pan)})
+			}
+		}
+		var all []func(pos int) []pv
+		for _, c := range lc {
+			c := c
+			all = append(all, func(pos int) []pv {
+				var out []pv
+				for _, v := range valuesFor(c, pos) {
+					out = append(out, pv{c, v})
+				}
+				return out
+			})
+		}
+		for _, f1 := range all {
+			for _, a := range f1(1) {
+				for _, f2 := range all {
+					for _, b := range f2(2) {
+						run([]pv{a, b})
+						if thorough {
+							for _, f3 := range all {
+								for _, c3 := range f3(3) {
+									run([]pv{a, b, c3})
+								}
+							}
+						}
+					}
+				}
+			}
+		}
+	}
+	r.Eval(evals)
+	r.NontrivialN(evals)
+	r.Set("parameter_sequences_through_one_encoder", evals)
+}
+
+// normalize: nil and empty collections are the same value here.
+func normalize(v value) value {
+	if len(v.Items) == 0 {
+		v.Items = nil
+	}
+	if len(v.Fields) == 0 {
+		v.Fields = nil
+	}
+	return v
+}
+
 func main() {
 	r := vf.Start("C06", "exploration")
 	if r.Replay != "" {
 		var k kase
 		r.ReplayCase(&k)
-		judge(r, k.Cell, k.Value)
-		r.Finish("")
+		if k.Cell.Loc != "" {
+			judge(r, k.Cell, k.Value)
+			r.Finish("")
+		}
+		// a case of the several-parameters sub-check: the whole (cheap) enumeration is run again
 	}
 	// ----- cells admitted by the real parser and generator
 	var cells []cell
@@ -1094,6 +1299,7 @@ func main() {
 	}
 	cookieEscapes(r, cookieLen)
 	pathAssembly(r)
+	sequences(r, cells, true)
 
 	r.Sample(kase{Cell: cell{"path", "matrix", true, "object"}, Value: value{Fields: []uri.Field{{Name: "a", Value: "x y"}, {Name: "b", Value: "é"}}}, Wire: ";a=x%20y;b=%C3%A9", Expected: ";a=x y;b=é"})
 	r.Sample(kase{Cell: cell{"query", "pipeDelimited", false, "array"}, Value: value{Items: []string{"a", "b|c"}}, EncErr: "(must be refused or rejected: '|' is the active delimiter)"})
